@@ -89,7 +89,7 @@ pub static PROBE: AtomicBool = AtomicBool::new(true);
 pub struct StreamCore {
     st: StdMutex<(std::collections::VecDeque<u64>, bool, Option<std::task::Waker>)>,
     pub pushed: AtomicU64, pub released: AtomicBool, pub processed: StdMutex<Vec<u64>>, pub received: StdMutex<Vec<u64>>, pub ended_seen: AtomicBool,
-    pub polls_after_gone: AtomicUsize,
+    pub polls_after_gone: AtomicUsize, pub slow: StdMutex<std::collections::HashSet<u64>>,
 }
 pub struct HStream { core: Arc<StreamCore> }
 impl futures::Stream for HStream {
@@ -400,10 +400,11 @@ pub fn exec_op(ctx: &Arc<Ctx>, op: &Op, caller: usize, nested: bool, local: &mut
             return;
         }
         Op::ExpectPanic(q) => { expect_panic(ctx, *q, caller); return; }
-        Op::Produce(k, n) => {
+        Op::Produce(k, n) | Op::ProduceSlow(k, n) => {
+            let slow = matches!(op, Op::ProduceSlow(_, _));
             for _ in 0..*n {
                 let sc = &ctx.streams[*k];
-                let w = { let mut st = sc.st.lock().unwrap(); desync::verif::log("api", "PRODUCE", *k, String::new()); let x = sc.pushed.fetch_add(1, SeqCst); st.0.push_back(x); st.2.take() };
+                let w = { let mut st = sc.st.lock().unwrap(); desync::verif::log("api", "PRODUCE", *k, String::new()); let x = sc.pushed.fetch_add(1, SeqCst); if slow { sc.slow.lock().unwrap().insert(x); } st.0.push_back(x); st.2.take() };
                 rt::thread::yield_now();
                 if let Some(w) = w { w.wake(); }
             }
@@ -437,8 +438,7 @@ pub fn exec_op(ctx: &Arc<Ctx>, op: &Op, caller: usize, nested: bool, local: &mut
             let obj = match ctx.obj(*q) { Some(o) => o, None => return };
             let (c2, k2, q2) = (ctx.clone(), *k, *q);
             desync::pipe_in(obj, HStream { core: ctx.streams[*k].clone() }, move |p: &mut Payload, item: u64| {
-                pipe_process(&c2, k2, q2, p, item);
-                futures::future::ready(()).boxed()
+                pipe_process_fut(c2.clone(), k2, q2, p, item, ())
             });
             return;
         }
@@ -446,8 +446,7 @@ pub fn exec_op(ctx: &Arc<Ctx>, op: &Op, caller: usize, nested: bool, local: &mut
             let obj = match ctx.obj(*q) { Some(o) => o, None => return };
             let (c2, k2, q2) = (ctx.clone(), *k, *q);
             let mut out = desync::pipe(obj, HStream { core: ctx.streams[*k].clone() }, move |p: &mut Payload, item: u64| {
-                pipe_process(&c2, k2, q2, p, item);
-                futures::future::ready(item * 10 + 7).boxed()
+                pipe_process_fut(c2.clone(), k2, q2, p, item, item * 10 + 7)
             });
             if *d > 0 { desync::verif::log("api", "SETDEPTH", *d, String::new()); out.set_backpressure_depth(*d); }
             local.out = Some((*k, out));
@@ -655,6 +654,26 @@ pub trait MaybeSync: Sized { fn sync_wait(self) -> Result<usize, futures::channe
 impl MaybeSync for desync::scheduler::SchedulerFuture<usize> { fn sync_wait(self) -> Result<usize, futures::channel::oneshot::Canceled> { self.sync() } }
 impl<'a> MaybeSync for BoxFuture<'a, Result<usize, futures::channel::oneshot::Canceled>> { fn sync_wait(self) -> Result<usize, futures::channel::oneshot::Canceled> { block_on(self, None).unwrap() } }
 
+/// Processing of one item as a future: ordinary items are processed at once; a SLOW item yields co-operatively in the middle, holding
+/// the object's exclusive access across the yield (occupancy stays 1; a cancelled item releases it through the guard)
+fn pipe_process_fut<'a, R: Send + 'a>(ctx: Arc<Ctx>, k: usize, q: usize, p: &'a mut Payload, item: u64, r: R) -> BoxFuture<'a, R> {
+    if !ctx.streams[k].slow.lock().unwrap().contains(&item) { pipe_process(&ctx, k, q, p, item); return futures::future::ready(r).boxed(); }
+    struct Occ(Arc<ObjMon>);
+    impl Drop for Occ { fn drop(&mut self) { self.0.occ.fetch_sub(1, SeqCst); } }
+    async move {
+        if p.mon.dead.load(SeqCst) || p.canary != 0xC0FFEE { ctx.error("C05", format!("pipe {} processed item {} on object {} after it was freed", k, item, q)); }
+        let occ = p.mon.occ.fetch_add(1, SeqCst) + 1;
+        let _g = Occ(p.mon.clone());
+        if occ != 1 { ctx.error("C01", format!("pipe {} processed item {} on object {} while {} other operation(s) in progress", k, item, q, occ - 1)); }
+        p.canary = 0xABCD00 + item;
+        CoopYield(false).await;
+        if p.canary != 0xABCD00 + item { ctx.error("C01", format!("pipe {} saw object {} modified while item {} was suspended", k, q, item)); }
+        p.canary = 0xC0FFEE;
+        ctx.streams[k].processed.lock().unwrap().push(item);
+        r
+    }.boxed()
+}
+
 /// The processing function of a pipe: runs inside the object's exclusive access (occupancy checked like any operation)
 fn pipe_process(ctx: &Arc<Ctx>, k: usize, q: usize, p: &mut Payload, item: u64) {
     if p.mon.dead.load(SeqCst) || p.canary != 0xC0FFEE { ctx.error("C05", format!("pipe {} processed item {} on object {} after it was freed", k, item, q)); }
@@ -731,7 +750,7 @@ pub fn make_ctx(prog: &Program, fail_fast: bool, touch_yield: bool) -> Arc<Ctx> 
         prog: prog.clone(), objs, qobjs, mons,
         events: (0..prog.nev).map(|_| EventCell { st: StdMutex::new((false, vec![])) }).collect(),
         gates: (0..prog.ngates).map(|_| Gate { open: rt::sync::Mutex::new(false), cv: rt::sync::Condvar::new() }).collect(),
-        streams: (0..prog.nstreams()).map(|_| Arc::new(StreamCore { st: StdMutex::new((Default::default(), false, None)), pushed: AtomicU64::new(0), released: AtomicBool::new(false), processed: StdMutex::new(vec![]), received: StdMutex::new(vec![]), ended_seen: AtomicBool::new(false), polls_after_gone: AtomicUsize::new(0) })).collect(),
+        streams: (0..prog.nstreams()).map(|_| Arc::new(StreamCore { st: StdMutex::new((Default::default(), false, None)), pushed: AtomicU64::new(0), released: AtomicBool::new(false), processed: StdMutex::new(vec![]), received: StdMutex::new(vec![]), ended_seen: AtomicBool::new(false), polls_after_gone: AtomicUsize::new(0), slow: StdMutex::new(Default::default()) })).collect(),
         clock, ops: StdMutex::new(vec![]), errors: StdMutex::new(vec![]),
         pending: AtomicUsize::new(0), cur_max: AtomicUsize::new(prog.pool), max_ever: AtomicUsize::new(prog.pool), racy_max_change: AtomicBool::new(false), latch: rt::sync::Mutex::new(()), latch_cv: rt::sync::Condvar::new(), fail_fast, touch_yield,
         threads: StdMutex::new(vec![None; prog.callers.len()]), in_try: StdMutex::new(Default::default()),
